@@ -94,6 +94,11 @@ func (t *Tokenizer) TokenizeWithLimits(limits TokenizerLimits, input *ast.Input)
 			lastWasSpread = true
 		case keyword.IDENT:
 			key := identkeyword.KeywordFromLiteral(input.ByteSlice(next.Literal))
+			if localDepth > 0 {
+				// inside braces query/mutation/subscription/fragment are ordinary names (e.g. a field named query),
+				// they don't start a new definition and must be counted like any other identifier
+				key = identkeyword.UNDEFINED
+			}
 			switch key {
 			case identkeyword.FRAGMENT, identkeyword.QUERY, identkeyword.MUTATION, identkeyword.SUBSCRIPTION:
 				// When starting a new operation or fragment, add the local depth peak
